@@ -16,10 +16,17 @@
 (* Named deviations (TRUE = the code):                                     *)
 (*   LockOrderAsCode  shutdown takes topics before topic_handles           *)
 (*   CloseChannels    shutdown closes the channels before joining          *)
+(*   CloseForAllHandles  closing a registration channel closes it for      *)
+(*                    every clone of its sender (FALSE: shutdown only      *)
+(*                    drops its own handle, so the channel stays open      *)
+(*                    while a registration still holds a clone)            *)
+(* A registration may be stuck for good between cloning the sender and     *)
+(* sending its socket (its peer does not read the Ok): it must not keep    *)
+(* shutdown from finishing.                                                *)
 (***************************************************************************)
 EXTENDS Naturals, FiniteSets, TLC
 
-CONSTANTS Tasks, Topics, Cap, MayStall, LockOrderAsCode, CloseChannels
+CONSTANTS Tasks, Topics, Cap, MayStall, MayStick, LockOrderAsCode, CloseChannels, CloseForAllHandles
 
 VARIABLES tpc,      \* [Tasks -> control point of a handle_stream task]
           ttopic,   \* [Tasks -> Topics]
@@ -30,9 +37,11 @@ VARIABLES tpc,      \* [Tasks -> control point of a handle_stream task]
           chan,     \* [Topics -> Nat] sockets queued for the router
           done,     \* [Topics -> BOOLEAN] the router task has finished
           drains,   \* [Topics -> BOOLEAN] FALSE: the router is blocked on a peer that does not read
+          stuck,    \* [Tasks -> BOOLEAN] the task's peer never reads: it stays in "sending" for ever
+          dropped,  \* [Topics -> BOOLEAN] shutdown has let go of the map's handle to the channel
           spc       \* shutdown: "run" | "l1" | "l2" | "close" | "join" | "closed"
 SD == 99    \* the shutdown as a lock holder
-lvars == <<tpc, ttopic, lock, hlock, exists, closed, chan, done, drains, spc>>
+lvars == <<tpc, ttopic, lock, hlock, exists, closed, chan, done, drains, stuck, dropped, spc>>
 
 LInit == /\ tpc = [k \in Tasks |-> "want_lock"]
          /\ ttopic \in [Tasks -> Topics]
@@ -40,63 +49,75 @@ LInit == /\ tpc = [k \in Tasks |-> "want_lock"]
          /\ exists = [t \in Topics |-> FALSE] /\ closed = [t \in Topics |-> FALSE]
          /\ chan = [t \in Topics |-> 0] /\ done = [t \in Topics |-> FALSE]
          /\ drains = [t \in Topics |-> TRUE]
+         /\ stuck \in [Tasks -> (IF MayStick THEN BOOLEAN ELSE {FALSE})]
+         /\ dropped = [t \in Topics |-> FALSE]
          /\ spc = "run"
 
 \* ---------------------------------------------------------------- handle_stream
 TAcquire(k) == /\ tpc[k] = "want_lock" /\ lock = 0
                /\ lock' = k /\ tpc' = [tpc EXCEPT ![k] = "locked"]
-               /\ UNCHANGED <<ttopic, hlock, exists, closed, chan, done, drains, spc>>
+               /\ UNCHANGED <<ttopic, hlock, exists, closed, chan, done, drains, stuck, dropped, spc>>
 TLookup(k) == /\ tpc[k] = "locked"
               /\ tpc' = [tpc EXCEPT ![k] = IF exists[ttopic[k]] THEN "unlock" ELSE "want_hlock"]
-              /\ UNCHANGED <<ttopic, lock, hlock, exists, closed, chan, done, drains, spc>>
+              /\ UNCHANGED <<ttopic, lock, hlock, exists, closed, chan, done, drains, stuck, dropped, spc>>
 \* topic_handles.lock().await.push(handle): a temporary guard, taken while `topics` is held
 TPush(k) == /\ tpc[k] = "want_hlock" /\ hlock = 0
             /\ exists' = [exists EXCEPT ![ttopic[k]] = TRUE]
             /\ tpc' = [tpc EXCEPT ![k] = "unlock"]
-            /\ UNCHANGED <<ttopic, lock, hlock, closed, chan, done, drains, spc>>
+            /\ UNCHANGED <<ttopic, lock, hlock, closed, chan, done, drains, stuck, dropped, spc>>
+\* the sender is cloned under the lock; from here on the task holds a handle of its own
 TUnlock(k) == /\ tpc[k] = "unlock"
               /\ lock' = 0 /\ tpc' = [tpc EXCEPT ![k] = "sending"]
-              /\ UNCHANGED <<ttopic, hlock, exists, closed, chan, done, drains, spc>>
-\* tx.send(socket).await: fails on a closed channel, else waits for room
-TSend(k) == /\ tpc[k] = "sending"
+              /\ UNCHANGED <<ttopic, hlock, exists, closed, chan, done, drains, stuck, dropped, spc>>
+\* who still holds a clone of topic t's sender
+Holders(t) == {j \in Tasks : ttopic[j] = t /\ tpc[j] = "sending"}
+\* stream.send(Ok) then tx.send(socket).await: never completes if the peer does not read the Ok; fails on a
+\* closed channel, else waits for room.  (Only with ~CloseForAllHandles: the last holder to let go of its
+\* clone after shutdown dropped the map's handle is the one that closes the channel.)
+TSend(k) == /\ tpc[k] = "sending" /\ ~stuck[k]
             /\ LET t == ttopic[k] IN
-               IF closed[t] THEN tpc' = [tpc EXCEPT ![k] = "failed"] /\ chan' = chan
-               ELSE /\ chan[t] < Cap
-                    /\ chan' = [chan EXCEPT ![t] = @ + 1] /\ tpc' = [tpc EXCEPT ![k] = "served"]
-            /\ UNCHANGED <<ttopic, lock, hlock, exists, closed, done, drains, spc>>
+               /\ IF closed[t] THEN tpc' = [tpc EXCEPT ![k] = "failed"] /\ chan' = chan
+                  ELSE /\ chan[t] < Cap
+                       /\ chan' = [chan EXCEPT ![t] = @ + 1] /\ tpc' = [tpc EXCEPT ![k] = "served"]
+               /\ closed' = IF ~CloseForAllHandles /\ dropped[t] /\ Holders(t) = {k}
+                            THEN [closed EXCEPT ![t] = TRUE] ELSE closed
+            /\ UNCHANGED <<ttopic, lock, hlock, exists, done, drains, stuck, dropped, spc>>
 
 \* ---------------------------------------------------------------- routers
 RTake(t) == /\ exists[t] /\ ~done[t] /\ drains[t] /\ chan[t] > 0
             /\ chan' = [chan EXCEPT ![t] = @ - 1]
-            /\ UNCHANGED <<tpc, ttopic, lock, hlock, exists, closed, done, drains, spc>>
+            /\ UNCHANGED <<tpc, ttopic, lock, hlock, exists, closed, done, drains, stuck, dropped, spc>>
 RFinish(t) == /\ exists[t] /\ ~done[t] /\ closed[t] /\ chan[t] = 0 /\ drains[t]
               /\ done' = [done EXCEPT ![t] = TRUE]
-              /\ UNCHANGED <<tpc, ttopic, lock, hlock, exists, closed, chan, drains, spc>>
+              /\ UNCHANGED <<tpc, ttopic, lock, hlock, exists, closed, chan, drains, stuck, dropped, spc>>
 Stall(t) == /\ MayStall /\ exists[t] /\ ~done[t] /\ drains[t]
             /\ drains' = [drains EXCEPT ![t] = FALSE]
-            /\ UNCHANGED <<tpc, ttopic, lock, hlock, exists, closed, chan, done, spc>>
+            /\ UNCHANGED <<tpc, ttopic, lock, hlock, exists, closed, chan, done, stuck, dropped, spc>>
 
 \* ---------------------------------------------------------------- shutdown
 SBegin == /\ spc = "run" /\ spc' = "l1"
-          /\ UNCHANGED <<tpc, ttopic, lock, hlock, exists, closed, chan, done, drains>>
+          /\ UNCHANGED <<tpc, ttopic, lock, hlock, exists, closed, chan, done, drains, stuck, dropped>>
 SAcq1 == /\ spc = "l1"
          /\ IF LockOrderAsCode THEN lock = 0 /\ lock' = SD /\ hlock' = hlock
                                ELSE hlock = 0 /\ hlock' = SD /\ lock' = lock
          /\ spc' = "l2"
-         /\ UNCHANGED <<tpc, ttopic, exists, closed, chan, done, drains>>
+         /\ UNCHANGED <<tpc, ttopic, exists, closed, chan, done, drains, stuck, dropped>>
 SAcq2 == /\ spc = "l2"
          /\ IF LockOrderAsCode THEN hlock = 0 /\ hlock' = SD /\ lock' = lock
                                ELSE lock = 0 /\ lock' = SD /\ hlock' = hlock
          /\ spc' = "close"
-         /\ UNCHANGED <<tpc, ttopic, exists, closed, chan, done, drains>>
+         /\ UNCHANGED <<tpc, ttopic, exists, closed, chan, done, drains, stuck, dropped>>
+\* close_channel() on every sender in the map
 SClose == /\ spc = "close"
-          /\ closed' = IF CloseChannels THEN [t \in Topics |-> exists[t]] ELSE closed
+          /\ dropped' = IF CloseChannels THEN [t \in Topics |-> exists[t]] ELSE dropped
+          /\ closed' = IF ~CloseChannels THEN closed
+                       ELSE [t \in Topics |-> exists[t] /\ (CloseForAllHandles \/ Holders(t) = {})]
           /\ spc' = "join"
-          /\ UNCHANGED <<tpc, ttopic, lock, hlock, exists, chan, done, drains>>
+          /\ UNCHANGED <<tpc, ttopic, lock, hlock, exists, chan, done, drains, stuck>>
 SJoin == /\ spc = "join"
          /\ \A t \in Topics : exists[t] => done[t]
          /\ spc' = "closed" /\ lock' = 0 /\ hlock' = 0
-         /\ UNCHANGED <<tpc, ttopic, exists, closed, chan, done, drains>>
+         /\ UNCHANGED <<tpc, ttopic, exists, closed, chan, done, drains, stuck, dropped>>
 
 LNext == \/ \E k \in Tasks : TAcquire(k) \/ TLookup(k) \/ TPush(k) \/ TUnlock(k) \/ TSend(k)
          \/ \E t \in Topics : RTake(t) \/ RFinish(t) \/ Stall(t)
@@ -115,6 +136,8 @@ Live_ShutdownEnds == (spc = "l1") ~> (spc = "closed" \/ \E t \in Topics : ~drain
 \* the code does that, the endpoint is closed right after and nothing is promised about it.)
 Inv_ClosedMeansAllRoutersDone == spc = "closed" => \A t \in Topics : closed[t] => (done[t] /\ chan[t] = 0)
 Prop_JoinCoversEveryTopic == [][(spc = "join" /\ spc' = "closed") => \A t \in Topics : exists[t] => closed[t]]_lvars
+\* (a registration stuck behind a peer that does not read must not keep shutdown from finishing: Live_ShutdownEnds
+\* has no exemption for it)
 \* no registration runs its critical section, and no router is spawned, while shutdown holds the map
 Inv_ShutdownExclusive == spc \in {"close", "join"} => (lock = SD /\ hlock = SD /\ \A k \in Tasks : tpc[k] \notin {"locked", "want_hlock", "unlock"})
 \* a router finishes only after its channel was closed and drained
